@@ -428,6 +428,7 @@ def all_ctx():
 
 
 def run(ctx):
+    codegen_binding(ctx, ctx.rng)
     P = placeholders()
     contexts = all_ctx()
     trees = depth1() + mixed_shapes()
@@ -544,6 +545,65 @@ def run(ctx):
                 ctx.sample({"tree": t, "repr": repr(build(t, P)[0]), "ctx": cs[0]})
 
 
+def codegen_binding(ctx, rng):
+    """the placeholders as generated code binds them: a RepeatUntil predicate over obj_ / list_ must stop parsing and building at
+    the element at which the natively evaluated predicate first holds - in the interpreter and in the compiled construct"""
+    import construct as C
+    from ..recipes import mkexpr, evalexpr
+    preds = [["bin", "==", ["obj"], 0], ["bin", "==", ["list", -1], 0], ["bin", "==", ["fn", "len", ["list"]], 3], ["bin", ">", ["fn", "sum", ["list"]], 5],
+             ["bin", "&", ["bin", ">=", ["fn", "len", ["list"]], 2], ["bin", "==", ["list", -1], ["list", -2]]], ["bin", ">=", ["bin", "-", ["fn", "max", ["list"]], ["fn", "min", ["list"]]], 4],
+             ["bin", "==", ["bin", "+", ["list", 0], ["obj"]], 6], ["un", "~", ["bin", "<", ["fn", "len", ["list"]], 2]]]
+    for pi, pe in enumerate(preds):
+        if not ctx.mine(pi):
+            continue
+        d = C.Struct("items" / C.RepeatUntil(mkexpr(pe), C.Byte), "t" / C.Byte)
+        try:
+            impls = [("interpreted", d), ("compiled", d.compile())]
+        except Exception as e:
+            ctx.count("codegen_binding_not_compilable")
+            impls = [("interpreted", d)]
+        for _ in range(ctx.pick(40, 400)):
+            src = [rng.choice([0, 1, 2, 3, 3, 5, 6]) for _ in range(12)]
+            stop = None
+            for i in range(len(src)):
+                try:
+                    if evalexpr(pe, {}, src[i], src[:i + 1]):
+                        stop = i
+                        break
+                except Exception:
+                    break
+            if stop is None:
+                continue
+            items = src[:stop + 1]
+            data = bytes(items) + b"\x09" + bytes(src[stop + 1:])
+            ok = True
+            for name, x in impls:
+                ctx.ev()
+                case = {"codegen_binding": True, "predicate": pe, "items": src, "impl": name}
+                try:
+                    pv = x.parse(data)
+                    p = ("ok", list(pv["items"]), pv["t"])
+                except Exception as e:
+                    p = ("exc", type(e).__name__, str(e)[:80])
+                if p != ("ok", items, 9):
+                    ctx.violation("bound-placeholder-differs:parse:%s" % name, "predicate %r: %s parse gives %r, native evaluation stops after %r" % (repr(mkexpr(pe)), name, p, items), case)
+                    ok = False
+                    break
+                try:
+                    b = ("ok", x.build({"items": src, "t": 9}))
+                except Exception as e:
+                    b = ("exc", type(e).__name__, str(e)[:80])
+                if b != ("ok", bytes(items) + b"\x09"):
+                    ctx.violation("bound-placeholder-differs:build:%s" % name, "predicate %r: %s build of %r -> %r, native evaluation stops after %r" % (repr(mkexpr(pe)), name, src, b, items), case)
+                    ok = False
+                    break
+            if ok:
+                ctx.nontrivial("codegen-binding", pi, len(items))
+        ctx.count("codegen_binding_predicates")
+
+
 def replay(ctx, case):
+    if case.get("codegen_binding"):
+        return codegen_binding(ctx, __import__("random").Random(1))
     P = placeholders()
     check_tree(ctx, case["tree"], case["ctx"], P, mode_lib=case.get("lib", False))
